@@ -6,6 +6,7 @@ inside ``with installed(...)`` (the float replay runs without any of them).
 from __future__ import annotations
 
 import contextlib
+from fractions import Fraction
 import importlib
 import types
 
@@ -127,6 +128,8 @@ class NpShim:
             return self._cache[name]
 
         def wrapped(*a, **k):
+            if name in ("sqrt", "log", "exp") and len(a) == 1 and isinstance(a[0], np.ndarray) and a[0].dtype == object and not _has_sym(a[0]):
+                return real(np.asarray(a[0], dtype=float), **k)
             a = [_wrapin(x) for x in a]
             r = _rewrap(real(*a, **k))
             if name == "einsum" and isinstance(r, (SymReal, SymBool)):
@@ -163,6 +166,16 @@ def _sf_stub(dist, argnames):
             if n not in vals:
                 raise TypeError(f"missing shape parameter {n}")
         params = [vals[n] for n in names]
+        if not any(_has_sym(np.asarray(p, dtype=object)) if isinstance(p, np.ndarray) else isinstance(p, (SymReal, SymBool)) for p in [x] + params):
+            # nothing symbolic involved: the real scipy kernel (its floats are lifted exactly later)
+            import scipy.stats as _st
+            real = getattr(_st, "weibull_min" if dist == "weibull" else dist)
+            fl = [np.asarray(p, dtype=float) for p in [x] + params]
+            r = np.asarray(real.sf(fl[0], *fl[1:-2], loc=fl[-2], scale=fl[-1]))
+            # lifted as exact constants so that flodym's later arithmetic on the table stays exact
+            out = np.empty(r.shape, dtype=object)
+            out.flat = [SymReal.lit(Fraction(float(v))) for v in r.flat]
+            return out.view(SymArr) if out.ndim else out[()]
         arrs = [np.asarray(p, dtype=object) for p in [x] + params]
         bc = np.broadcast(*arrs)
         out = np.empty(bc.shape, dtype=object)
